@@ -252,7 +252,10 @@ EmitMove:
           uint32_t alt_id = wd._phys_to_var_id[out_id];
           Var& alt_var = ctx._vars[alt_id];
 
-          if (!alt_var.out.is_initialized() || (alt_var.out.is_reg() && alt_var.out.reg_id() == cur_id)) {
+          // Swap only if the other variable has no destination (it can live anywhere) or wants the register this
+          // variable is in - in that case the destination must be a register of the same group.
+          if (!alt_var.out.is_initialized() ||
+              (alt_var.out.is_reg() && RegUtils::group_of(alt_var.out.reg_type()) == cur_group && alt_var.out.reg_id() == cur_id)) {
             // Only few architectures provide swap operations, and only for few register groups.
             if (arch_traits.has_inst_reg_swap(cur_group)) {
               RegType highest_type = Support::max(cur.reg_type(), alt_var.cur.reg_type());
